@@ -12,6 +12,9 @@
 -/
 import NV.Model.Listen
 import NV.Gen.Listen
+import NV.Model.SvcStart
+import NV.Model.CFG
+import NV.Gen.SvcStart
 namespace NV.C16
 open NV.Listen
 
@@ -776,5 +779,104 @@ tests `closed` and the sweep sets it. -/
 theorem gen_protocol_order :
     listenerSendThenCancel.all id = true ∧ listenerSendThenCancel.length = goroutinesPerAddr ∧
     mainSendAfterDone = true ∧ registerTestsClosed = true ∧ sweepSetsClosed = true := by decide
+
+
+/-! ### `(*proxySvc).Start` (run.go): a start that did not bind is never a successful start -/
+section SvcStart
+open NV.SvcStart
+
+/-- **C16**: Start reports success exactly when, after any number of "network unreachable"
+attempts, an attempt found every listener serving — never after a failed attempt, and never by
+running out of patience. -/
+theorem started_iff (as : List Att) :
+    svcStart as = .started ↔ ∃ n rest, as = List.replicate n .unreachable ++ .bound :: rest := by
+  induction as with
+  | nil =>
+    simp only [svcStart]
+    constructor
+    · intro h; cases h
+    · rintro ⟨n, rest, h⟩; cases n <;> simp [List.replicate_succ] at h
+  | cons a as ih =>
+    cases a with
+    | bound =>
+      simp only [svcStart, true_iff]
+      exact ⟨0, as, rfl⟩
+    | failed =>
+      simp only [svcStart]
+      constructor
+      · intro h; cases h
+      · rintro ⟨n, rest, h⟩
+        cases n with
+        | zero => simp at h
+        | succ k => simp [List.replicate_succ] at h
+    | unreachable =>
+      simp only [svcStart, ih]
+      constructor
+      · rintro ⟨n, rest, h⟩; exact ⟨n + 1, rest, by simp [List.replicate_succ, h]⟩
+      · rintro ⟨n, rest, h⟩
+        cases n with
+        | zero => simp at h
+        | succ k => exact ⟨k, rest, by simpa [List.replicate_succ] using h⟩
+
+/-- the OnStarted hooks (router set-up, activation of the system resolver) run only on a start
+whose last attempt bound every listener -/
+theorem hooks_only_when_bound (as : List Att) (h : hooksRun as = true) :
+    ∃ n rest, as = List.replicate n .unreachable ++ .bound :: rest := by
+  have : svcStart as = .started := by simpa [hooksRun] using h
+  exact (started_iff as).1 this
+
+/-- however long the network stays unreachable, Start neither gives up with a success nor runs
+a hook: it is still waiting -/
+theorem unreachable_never_started (n : Nat) :
+    svcStart (List.replicate n .unreachable) = .waiting ∧ hooksRun (List.replicate n .unreachable) = false := by
+  induction n with
+  | zero => exact ⟨rfl, rfl⟩
+  | succ k ih => simpa [List.replicate_succ, svcStart, hooksRun] using ih
+
+/-- a bind failure of any other kind ends the start with an error after the retries so far -/
+theorem failed_is_error (n : Nat) (rest : List Att) :
+    svcStart (List.replicate n .unreachable ++ .failed :: rest) = .error := by
+  induction n with
+  | zero => rfl
+  | succ k ih => simpa [List.replicate_succ, svcStart] using ih
+
+/-- an attempt during which ListenAndServe returned an error is never counted as bound (with
+`bind_error_reported`: a listener that cannot bind makes ListenAndServe return that error) -/
+theorem attempt_error_not_bound (u : Bool) : attempt (some u) ≠ .bound := by cases u <;> simp [attempt]
+
+example : svcStart [.unreachable, .unreachable, .bound] = .started ∧
+    svcStart [.unreachable, .failed, .bound] = .error := by decide
+
+open NV.CFG NV.Gen in
+/-- **C16 (regenerated)**: the control-flow graph of `(*proxySvc).Start`, projected on "the last
+`p.start()` returned nil" (acquired on the success edge of the test that follows the call), passes
+the certificate check: on EVERY path, through any number of retries, the OnStarted hooks and
+`return nil` are reached holding that fact, and it is never acquired twice. A retry loop that can
+be left without a successful attempt breaks this obligation. -/
+theorem gen_start_cert_ok :
+    check SvcStart.start_strict SvcStart.start SvcStart.start_cert SvcStart.start_init = true ∧
+    SvcStart.start_init = (0, 0) := by decide
+
+open NV.CFG NV.Gen in
+/-- the extraction is not vacuous: it saw the call of `p.start()`, its success edge, the hooks and
+the success report -/
+theorem gen_start_nonvacuous :
+    1 ≤ SvcStart.startCalls ∧ 1 ≤ SvcStart.hookCalls ∧ 1 ≤ SvcStart.nilReturns ∧
+    (SvcStart.start.any fun b => b.evs.contains .acq) = true ∧
+    (SvcStart.start.any fun b => b.evs == [.need]) = true ∧
+    (SvcStart.start.any fun b => b.evs == [.need, .rel]) = true := by decide
+
+open NV.CFG NV.Gen in
+/-- every program point of every path of Start: a hook call or a success report finds the
+"attempt succeeded" fact held (lifted from the local check by `point_ok`) -/
+theorem start_need_holds (i : Nat) (s : St) (b : Block) (pre post : List Ev)
+    (hr : Reach SvcStart.start SvcStart.start_init i s) (hb : SvcStart.start[i]? = some b)
+    (hsplit : b.evs = pre ++ Ev.need :: post) : 1 ≤ (runEvs pre s).1 := by
+  have h := point_ok SvcStart.start_strict SvcStart.start SvcStart.start_cert SvcStart.start_init
+    gen_start_cert_ok.1 i s b hr hb pre .need post hsplit
+  simp [Ev.okAfter, Ev.apply] at h
+  omega
+
+end SvcStart
 
 end NV.C16
